@@ -152,11 +152,17 @@ CHECKS = {
              "is exclusive. (b) NO DEADLOCK STATE on the single-producer pipeline model (Disruptor/Progress.v; any ring size, stage topology, batch sizes): from EVERY reachable state in which no handler "
              "has been told to exit there is a continuation in which every handler has returned from everything published (drain_possible), a write of up to N events completes (write_possible), and "
              "every handler reaches its exit (join_possible). (c) Progress of the blocking protocol (Disruptor/WaitProgress.v): from every reachable state a waiter whose condition holds can return by genuine "
-             "steps only - no spurious wake-up needed (waiter_can_return). These are possibility statements (no stuck state); termination under a fair scheduler is NOT a theorem: it is explored on every run - the "
+             "steps only - no spurious wake-up needed (waiter_can_return). (d) TERMINATION of the whole single-producer protocol (Disruptor/Liveness.v): the main thread runs any program of write calls (1..N events each), "
+             "then drain (alert once the last stage has caught up), then join; handlers exit only after the alert; steps are those of Pipeline.v. EVERY step strictly decreases a potential, so every run is finite with an "
+             "explicit bound (no livelock, any scheduler); a reachable state with no enabled step is the COMPLETE state (all writes returned, alert raised, all handlers exited), in which every handler has returned from "
+             "every event written (bar sequence 0, finding D7); every program can complete. So under any scheduler that runs an enabled thread whenever there is one, write, drain and join return. Every logged execution of a "
+             "drained single-producer pipeline is replayed on that model (LiveReplay.v, soundness theorem; a drain that returns early, a handler thread that ends before the alert, or a finished run whose model state is not "
+             "complete is a violation with the schedule as replay). What stays PARTIAL: a spinning or parked thread is modelled as a thread whose step is not enabled (the link parked-and-condition-true => woken is (a) and (c)), "
+             "fairness of the OS scheduler is assumed, and the multi-producer pipeline has no termination theorem (it does not terminate: finding D8). Termination is also explored on every run - the "
              "scheduler reports all-finished vs deadlock vs budget exhausted vs panic - for spin and blocking strategies, zero-event pipelines, tiny rings. Found and fixed: drain of an unused single "
              "producer (D5), stale-watermark underflow (D10). Multi-producer stall: known finding D8.",
-        note=LEVEL_NOTE_COMMON + "Axioms: none. " + "the deterministic scheduler hooks (cfg deepcausality_rs_deep_causality_verif) make every atomic / mutex / condvar operation and slot access of the real code a scheduling point and log it with its real Ordering; Fair termination is exploration-level only; the progress theorems are on the spin-style model (a blocked thread is a thread whose step is not enabled), the blocking strategy's parking is covered by (a).",
-        technique="Coq proof (no-lost-wake-up invariant; constructive progress / no-stuck-state theorems on the pipeline model) + scheduler-controlled exploration of termination",
+        note=LEVEL_NOTE_COMMON + "Axioms: none. " + "the deterministic scheduler hooks (cfg deepcausality_rs_deep_causality_verif) make every atomic / mutex / condvar operation and slot access of the real code a scheduling point and log it with its real Ordering; Termination is proved on the spin-style model for the single producer (every run finite, stuck only when complete) and explored otherwise; the progress theorems are on the spin-style model (a blocked thread is a thread whose step is not enabled), the blocking strategy's parking is covered by (a).",
+        technique="Coq proof (no-lost-wake-up invariant; progress theorems; termination by a strictly decreasing potential + no stuck state but the complete one) + replay of logged executions on the termination model + scheduler-controlled exploration",
         design="§7.R C06"),
     "C13": dict(
         text="Theorems (Coq, same pipeline model): a stage-(k+1) handler handles sequence i only after EVERY stage-k handler returned from i; it sees the modifications of all earlier stages and "
